@@ -5,7 +5,7 @@ from vlib import Err
 PROP = "C30"
 COQ = {
     "property_file": "Properties/C30.v",
-    "imports": "From BV Require Import Lib.Bytes Model.Smart.",
+    "imports": "From BV Require Import Lib.Bytes Model.Smart Model.SmartBig.",
 }
 META = {
     "level": "proof",
@@ -47,6 +47,17 @@ def corpus():
 
 
 def cases(rng, tier):
+    small = list(_small_cases(rng, tier))
+    big = list(sc.gen_big(rng, tier, hints=True)) + list(sc.gen_e2e_big(rng, tier))
+    step = max(1, len(small) // (len(big) + 1))        # spread the large cases over the shards
+    for i, c in enumerate(small):
+        yield c
+        if i % step == step - 1 and big:
+            yield big.pop(0)
+    yield from big
+
+
+def _small_cases(rng, tier):
     for inp in sc.gen_level_a(rng, tier, hints=True):
         if inp["kind"] in ("lp", "ck", "p3", "rl"):
             yield inp
@@ -100,7 +111,7 @@ def oracle(inp, obs):
         if k == "p3":
             return _trace_check(n, inp["lens"], obs[1], lambda o: o[0], lambda o: o[0] == 0)
         return _trace_check(n, inp["lens"], obs[1], lambda o: o[0], lambda o: o[1])
-    if k == "rl":
+    if k in ("rl", "big_rl"):
         res = obs[1]
         if "would-block" in [x for x in res if isinstance(x, str)]:
             i = res.index("would-block")
@@ -123,7 +134,7 @@ def finding_matches(fid, inp, obs, why):
 
 
 def nontrivial(inp, obs):
-    if inp["kind"] == "rl" and not isinstance(obs, Err):
+    if inp["kind"] in ("rl", "big_rl") and not isinstance(obs, Err):
         return len(obs[1]) >= 4
     return inp["kind"] == "e2e" or len(inp.get("lens", [])) >= 1
 
@@ -131,7 +142,7 @@ def nontrivial(inp, obs):
 def distribution(inputs, observations):
     d = {}
     for i in inputs:
-        k = i["kind"] + ("/" + i["dec"] if i["kind"] == "rl" else "") + ("/v%d" % i["version"] if i["kind"] == "e2e" else "")
+        k = i["kind"] + ("/" + i["dec"] if i["kind"] in ("rl", "big_rl") else "") + ("/v%d" % i["version"] if i["kind"] == "e2e" else "")
         d[k] = d.get(k, 0) + 1
     d["always_one_byte"] = sum(1 for i in inputs if i["kind"] == "rl" and set(i["pol"]) == {1})
     d["always_full_hint"] = sum(1 for i in inputs if i["kind"] == "rl" and set(i["pol"]) == {0})
